@@ -430,6 +430,13 @@ pub fn run(thorough: bool) -> Report {
             hists.push(vec![Msg::Open(a.clone()), Msg::Tokens, Msg::Open(b.clone()), Msg::Tokens]);
         }
     }
+    // changes that only append or remove whole lines at the end
+    for a in core.iter().step_by(2) {
+        for b in core.iter().skip(1).step_by(3) {
+            let longer = format!("{}\n{}", a, b);
+            hists.push(vec![Msg::Open(a.clone()), Msg::Change(longer.clone()), Msg::Tokens, Msg::Change(a.clone()), Msg::Tokens, Msg::Change(format!("{}\n", longer)), Msg::Tokens]);
+        }
+    }
     // a second document whose URI differs only in letter case
     for a in core.iter().step_by(3) {
         for b in core.iter().skip(1).step_by(3) {
